@@ -84,6 +84,46 @@ func DialPG(port int) (*PGClient, []BackendMsg, error) {
 	return c, msgs, nil
 }
 
+// DialPGAuth connects and answers a password authentication request with the given password.
+func DialPGAuth(port int, password string) (*PGClient, error) {
+	var conn net.Conn
+	var err error
+	for i := 0; i < 600; i++ {
+		conn, err = net.DialTimeout("tcp", fmt.Sprintf("127.0.0.1:%d", port), time.Second)
+		if err == nil {
+			break
+		}
+		time.Sleep(5 * time.Millisecond)
+	}
+	if err != nil {
+		return nil, err
+	}
+	c := &PGClient{conn: conn}
+	rc := &recConn{Conn: conn, c: c}
+	c.fe = pgproto3.NewFrontend(rc, rc)
+	c.fe.Send(&pgproto3.StartupMessage{ProtocolVersion: pgproto3.ProtocolVersionNumber, Parameters: map[string]string{"user": "app", "database": "db"}})
+	if err := c.fe.Flush(); err != nil {
+		conn.Close()
+		return nil, err
+	}
+	if _, err := c.ReadUntil(func(m BackendMsg) bool {
+		return m.Type == "AuthenticationCleartextPassword" || m.Type == "AuthenticationMD5Password" || m.Type == "ReadyForQuery"
+	}); err != nil {
+		conn.Close()
+		return nil, err
+	}
+	c.fe.Send(&pgproto3.PasswordMessage{Password: password})
+	if err := c.fe.Flush(); err != nil {
+		conn.Close()
+		return nil, err
+	}
+	if _, err := c.ReadUntilReady(); err != nil {
+		conn.Close()
+		return nil, err
+	}
+	return c, nil
+}
+
 // Close terminates the session.
 func (c *PGClient) Close() {
 	c.fe.Send(&pgproto3.Terminate{})
